@@ -1,1 +1,45 @@
-fn main() {}
+//! C11 — I/O helpers are invariant under chunking and transient errors (DESIGN.md §3 C11).
+use iolib::{c11_buf, c11_loops, c11_mem};
+use vcore::{Part, Session};
+
+mod regress;
+
+fn main() {
+    let mut s = Session::new();
+    // `c11 --from-bytes <libFuzzer artifact>`: convert to a JSON replay file and run it
+    if let Some(bytes) = iolib::fuzz::from_bytes_arg(&s.args.rest) {
+        use iolib::arb::{c11_any, C11Any};
+        let case = c11_any(&mut arbitrary::Unstructured::new(&bytes)).expect("decoding never fails");
+        let path = match &case {
+            C11Any::Loops(c) => iolib::fuzz::write_replay(&s.args.verif_dir, "C11", "loops", c),
+            C11Any::Buffered(c) => iolib::fuzz::write_replay(&s.args.verif_dir, "C11", "buffered", c),
+            C11Any::Mem(c) => iolib::fuzz::write_replay(&s.args.verif_dir, "C11", "mem", c),
+        };
+        eprintln!("replay file: {}", path.display());
+        s.args.replay = Some(path);
+    }
+
+    let mut p = Part::new("C11", "loops", regress::RULE_LOOPS);
+    p.quick_cases = 200_000;
+    p.thorough_cases = 8_000_000;
+    p.threads = 6;
+    p.assumptions = regress::assumptions();
+    p.regressions = regress::loops();
+    s.run_part(p, c11_loops::case_strategy(), c11_loops::run_helper);
+
+    let mut p = Part::new("C11", "buffered", regress::RULE_BUFFERED);
+    p.quick_cases = 150_000;
+    p.thorough_cases = 6_000_000;
+    p.threads = 6;
+    p.regressions = regress::buffered();
+    s.run_part(p, c11_buf::case_strategy(), c11_buf::run_buf);
+
+    let mut p = Part::new("C11", "mem", regress::RULE_MEM);
+    p.quick_cases = 150_000;
+    p.thorough_cases = 6_000_000;
+    p.threads = 6;
+    p.regressions = regress::mem();
+    s.run_part(p, c11_mem::case_strategy(), c11_mem::run_mem);
+
+    s.finish();
+}
